@@ -255,3 +255,31 @@ class AStr:
 
     def __repr__(self):
         return f"AStr(alpha={sorted(self.alphabet)}, first={sorted(self.first)}, last={sorted(self.last)}, empty={self.maybe_empty})"
+
+
+def class_accepts(items, ch):
+    """does the character class (items of an IN node) accept character ch? (ASCII categories only)"""
+    neg = False
+    hit = False
+    o = ord(ch)
+    for op, av in items:
+        if op is sre_c.NEGATE:
+            neg = True
+        elif op is sre_c.LITERAL:
+            hit = hit or av == o
+        elif op is sre_c.RANGE:
+            hit = hit or av[0] <= o <= av[1]
+        elif op is sre_c.CATEGORY:
+            if av is sre_c.CATEGORY_DIGIT:
+                hit = hit or ch.isdigit()
+            elif av is sre_c.CATEGORY_NOT_DIGIT:
+                hit = hit or not ch.isdigit()
+            elif av is sre_c.CATEGORY_WORD:
+                hit = hit or ch.isalnum() or ch == "_"
+            elif av is sre_c.CATEGORY_NOT_WORD:
+                hit = hit or not (ch.isalnum() or ch == "_")
+            elif av is sre_c.CATEGORY_SPACE:
+                hit = hit or ch.isspace()
+            elif av is sre_c.CATEGORY_NOT_SPACE:
+                hit = hit or not ch.isspace()
+    return hit != neg
